@@ -37,6 +37,7 @@ from sympy import (
     asin,
     asinh,
     atan,
+    atan2,
     atanh,
     cbrt,
     ceiling,
@@ -174,6 +175,7 @@ SPECIAL_FUNCS = {
     "asin": asin,
     "acos": acos,
     "atan": atan,
+    "atan2": atan2,
     "acot": acot,
     "asec": asec,
     "acsc": acsc,
